@@ -23,7 +23,7 @@ Definition show_link (l : link) : string :=
 
 Definition is_base_ns (p : list N * list (list N * cls)) : bool := str_eqb (fst p) BASE.
 
-Definition show_state (s : st) (main : list N) (queries : list (list N)) : string :=
+Definition show_state (fs : list (list N * gfile)) (s : st) (main : list N) (queries : list (list N)) : string :=
   "E:" ++ match serr s with Some e => show_error e | None => "ok" end
   ++ "|L:" ++ show_names (loads s)
   ++ "|C:" ++ show_nat (created s)
@@ -31,7 +31,8 @@ Definition show_state (s : st) (main : list N) (queries : list (list N)) : strin
   ++ "|I:" ++ sjoin ";" (map (fun p => show_str (fst p) ++ "[" ++ show_names (snd p) ++ "]") (imported s))
   ++ "|K:" ++ sjoin ";" (map show_link (links s))
   ++ "|B:" ++ sjoin ";" (map (fun p => show_str (fst p) ++ ">" ++ show_str (snd p)) (backs s))
+  ++ "|F:" ++ show_bool (safe fs s)
   ++ "|Q:" ++ sjoin ";" (map (fun q => show_str q ++ ">" ++ show_ocls (lookup s main q)) queries).
 
 Definition run_case (fs : list (list N * gfile)) (main : list N) (queries : list (list N)) : string :=
-  show_state (load_main fs main) main queries.
+  show_state fs (load_main fs main) main queries.
